@@ -161,6 +161,27 @@ func (d *driver) baseOps(w *world.World, depth int, path []string) []engine.Op {
 			w.App.StakingKeeper.Slash(w.Ctx(), w.ValCons[0], w.Header.Height-1, v.ConsensusPower(sdk.DefaultPowerReduction), sdk.NewDecWithPrec(1, 1))
 			return "ok"
 		}},
+		// governance lowered the number of unbonding / redelegation entries a delegator may hold per
+		// validator (pair): limits are reached with the entries the other operations create
+		{Name: "maxEntries(1)", Apply: func(w *world.World, p []string, res *engine.Result) string {
+			sp := w.App.StakingKeeper.GetParams(w.Ctx())
+			if sp.MaxEntries == 1 {
+				return "skip"
+			}
+			sp.MaxEntries = 1
+			if err := w.App.StakingKeeper.SetParams(w.Ctx(), sp); err != nil {
+				panic(err)
+			}
+			return "ok"
+		}},
+		// conversion of the registered token pair switched off by governance: the denomination keeps
+		// its ERC20 address
+		{Name: "togglePair(atest)", Apply: func(w *world.World, p []string, res *engine.Result) string {
+			if _, err := w.App.Erc20Keeper.ToggleConversion(w.Ctx(), "atest"); err != nil {
+				panic(err)
+			}
+			return "ok"
+		}},
 	}
 	return ops
 }
@@ -739,7 +760,7 @@ func bounds(tier string) int {
 func Worker(shard, n int, tier string) *engine.Result {
 	d := newDriver(tier)
 	res := engine.NewResult(Prop)
-	e := &engine.Explorer{W: d.w, Res: res, Stores: []string{"staking", "distribution", "bank", "acc"}, Ops: d.baseOps, MaxDepth: bounds(tier),
+	e := &engine.Explorer{W: d.w, Res: res, Stores: []string{"staking", "distribution", "bank", "acc", "erc20"}, Ops: d.baseOps, MaxDepth: bounds(tier),
 		Shard: shard, NShards: n, Deadline: time.Now().Add(20 * time.Minute),
 		Extra:     func(w *world.World) string { return fmt.Sprint(w.Header.Height) },
 		Invariant: func(w *world.World, p []string, res *engine.Result) { d.differential(w, p, res) },
@@ -767,7 +788,7 @@ func Run(tier string) int {
 	res.Sample(map[string]any{"base_state": []string{"undelegate(V1,2e17)", "nextblock"}, "call": "staking.cancelUnbonding(V1,mid,h-1)"})
 	return engine.Finish(res, engine.Meta{
 		Property: Prop, Tier: tier, Level: "model_checking", Start: start,
-		Rule:   "base states: all sequences <= depth of {delegate V2, undelegate V1, redelegate V1>V2, set withdraw address, block boundary, V2 jailed and out of the bonded set, V1 slashed for the previous block} with digest dedup; in each, every staking / distribution / ICS-20 tx method (incl. createValidator and withdrawValidatorCommission by a validator operator) x argument grid as fork differential (eth tx to the precompile vs Cosmos tx with the native message, both through DeliverTx) with a diff of ALL persistent stores, plus query methods vs module state and the native querier (validators: 4 statuses x 4 page requests; redelegations: 4 filters); non-trivial = differential in which both sides succeeded",
+		Rule:   "base states: all sequences <= depth of {delegate V2, undelegate V1, redelegate V1>V2, set withdraw address, block boundary, V2 jailed and out of the bonded set, V1 slashed for the previous block, MaxEntries lowered to 1, token-pair conversion toggled} with digest dedup; in each, every staking / distribution / ICS-20 tx method (incl. createValidator and withdrawValidatorCommission by a validator operator) x argument grid as fork differential (eth tx to the precompile vs Cosmos tx with the native message, both through DeliverTx) with a diff of ALL persistent stores, plus query methods vs module state and the native querier (validators: 4 statuses x 4 page requests; redelegations: 4 filters); non-trivial = differential in which both sides succeeded",
 		Bounds: map[string]any{"base_depth": bounds(tier)},
 		Assumptions: []string{
 			"gas price 0 so that fees do not enter the comparison ('balances apart from gas')",
